@@ -19,7 +19,7 @@ CONSTANTS Dev_LateHexCheck,
                                 \* i.e. possibly after the label file was rewritten (the code before it was repaired)
 
 Passes == {"read", "parse", "constants", "compress", "pseudo", "immediates", "encode", "data"}
-OutTrouble == {"out-nodir", "lab-nodir"}     \* -o / -l name a file in a directory that does not exist
+OutTrouble == {"out-nodir", "lab-nodir", "hex-isdir"}     \* -o / -l name a file in a directory that does not exist; <output>.hex is a directory
 Trouble == {"none", "missing-input", "bad-incdir", "hex-syntax", "hex-negative", "hex-toolarge"} \cup {"asm-" \o p : p \in Passes} \cup OutTrouble
 HexTrouble == {"hex-syntax", "hex-negative", "hex-toolarge"}
 Files == {"out", "lab", "hex"}
@@ -33,6 +33,7 @@ Init ==
         /\ (t \in HexTrouble => h) /\ (t = "bad-incdir" => i) /\ (t = "asm-compress" => c)
         /\ (~l => "lab" \notin pre) /\ (~h => "hex" \notin pre)
         /\ (t = "out-nodir" => ~defout /\ "out" \notin pre /\ "hex" \notin pre) /\ (t = "lab-nodir" => l /\ "lab" \notin pre)
+        /\ (t = "hex-isdir" => h /\ "hex" \in pre)       \* ("old" stands for the directory that is already there)
         \* -v (log to stdout) and --include-definitions (bundled chip definitions on the search path) change no file effect;
         \* they are only explored together with the plain option set to keep the space small
         /\ ((v \/ defs) => (~i /\ defout /\ pre = Files \cap (IF l THEN Files ELSE Files \ {"lab"}) \cap (IF h THEN Files ELSE Files \ {"hex"})))
@@ -55,7 +56,7 @@ WriteLabels == phase = "labels" /\ IF ~sc.labels THEN Step("binary") ELSE IF sc.
 WriteBinary == phase = "binary" /\ IF sc.trouble = "out-nodir" THEN Fail(1) ELSE Write("out", "hex")
 WriteHex == phase = "hex" /\
   IF ~sc.hex THEN phase' = "done" /\ exit' = 0 /\ UNCHANGED <<sc, fs, effects>>
-  ELSE IF sc.trouble \in HexTrouble THEN Fail(1)                        \* only reachable with Dev_LateHexCheck
+  ELSE IF sc.trouble \in HexTrouble \/ sc.trouble = "hex-isdir" THEN Fail(1)  \* only reachable with Dev_LateHexCheck / Dev_LateOutCheck
   ELSE phase' = "done" /\ exit' = 0 /\ fs' = [fs EXCEPT !["hex"] = "new"] /\ effects' = Append(effects, "hex") /\ sc' = sc
 Next == ParseArgs \/ CheckInput \/ CheckIncludeDirs \/ ParseHexOffset \/ Assemble \/ CheckHexRange \/ CheckOutputs \/ WriteLabels \/ WriteBinary \/ WriteHex
 Spec == Init /\ [][Next]_vars
